@@ -150,7 +150,7 @@ type world struct {
 
 func newWorld(c cfg) *world {
 	_, sub := disabled(c.Mask)
-	return &world{ag: statsd.NewMetricAggregator(c.Pcts, 0, 0, 0, 0, sub, c.Limit)} // expiry 0: series persist, so idle flushes are reachable
+	return &world{ag: statsd.VerifWiredAggregator(statsd.Server{PercentThreshold: c.Pcts, ExpiryIntervalCounter: 0, ExpiryIntervalGauge: 0, ExpiryIntervalSet: 0, ExpiryIntervalTimer: 0, DisabledSubTypes: sub, HistogramLimit: c.Limit})} // expiry 0: series persist, so idle flushes are reachable
 }
 
 var seenFlushed = map[string]bool{}
